@@ -166,7 +166,38 @@ def run_schedule(schedule, workers, timeout=20.0):
         t.join(timeout + 10)
         if t.is_alive():
             problems.append("thread did not finish")
+    blocked = None
+    if problems or b.timed_out:
+        blocked = blocked_witness([t for t in ts if t.is_alive()], b.running, ts)
     _current[0] = None
     if b.timed_out:
         problems.append("watchdog fired")
+    if blocked:
+        problems.append(blocked)
     return results, b.trace, problems
+
+
+def stack_of(thread, depth=6):
+    import sys
+    f = sys._current_frames().get(thread.ident)
+    out = []
+    while f is not None and len(out) < depth:
+        out.append("%s:%d %s" % (f.f_code.co_filename.split("/")[-1], f.f_lineno, f.f_code.co_name))
+        f = f.f_back
+    return out
+
+
+def blocked_witness(alive, running_tid, ts):
+    """the thread that holds the baton is the only one allowed to run; when it is still alive after the watchdog and its Python stack
+    does not move for two more seconds it is *blocked* (not slow): {"blocked": ..} with the stack - a verdict the caller may use,
+    unlike a bare timeout"""
+    import time
+    if running_tid is None or not ts[running_tid].is_alive():
+        return None
+    t = ts[running_tid]
+    s1 = stack_of(t)
+    time.sleep(2.0)
+    s2 = stack_of(t)
+    if s1 and s1 == s2 and not any(x.startswith("sched.py") for x in s1[:1]):
+        return {"blocked_thread": running_tid, "stack": s1, "note": "sole runnable thread, identical stack for 2 s after a %s s watchdog" % "20"}
+    return None
